@@ -432,10 +432,20 @@ func writeAmountWithSign(sb *strings.Builder, amount *ast.Amount, commodityForma
 // commodityText is the commodity symbol as it has to be written: symbols that contain anything
 // but letters and currency signs (blanks, digits, punctuation) need double quotes.
 func commodityText(symbol string) string {
+	letters, signs := 0, 0
 	for _, r := range symbol {
-		if !unicode.IsLetter(r) && !unicode.Is(unicode.Sc, r) {
+		switch {
+		case unicode.IsLetter(r):
+			letters++
+		case unicode.Is(unicode.Sc, r):
+			signs++
+		default:
 			return "\"" + symbol + "\""
 		}
+	}
+	// a word or a currency sign, not a mixture: "$USD" would be read as "$" followed by text
+	if letters > 0 && signs > 0 {
+		return "\"" + symbol + "\""
 	}
 	return symbol
 }
@@ -444,6 +454,9 @@ func commodityText(symbol string) string {
 // currency signs and upper-case codes are recognised there ("$5", "USD5"); any other word
 // ("green") would run into the number and has to keep its quotes.
 func leftCommodityText(symbol string) string {
+	if text := commodityText(symbol); text != symbol {
+		return text
+	}
 	for _, r := range symbol {
 		if !(r >= 'A' && r <= 'Z') && !unicode.Is(unicode.Sc, r) {
 			return "\"" + symbol + "\""
